@@ -1140,6 +1140,18 @@ func runPSSeq(env *ev.Env, c Case) (o ev.Outcome) {
 					o.Failf("%s: a download whose inner stream broke delivered bytes that were not stored under that id", when)
 					return
 				case rerr == io.EOF && len(got) != len(w):
+					racy := false
+					for _, q := range readers {
+						if q.id == id && !q.closed && q.fill {
+							racy = true // another reader of the id is still filling the cache
+						}
+					}
+					if c.Persistor == "fs" && racy && !r.fill && env.Known(mInPlace) {
+						// KF-C19-3: a hit on the partial file another reader is still writing (nothing broke here:
+						// the inner store was not asked)
+						o.KnownHits = append(o.KnownHits, "KF-C19-3")
+						break
+					}
 					o.Failf("%s: a download whose inner stream broke after %d bytes ended with a clean EOF after %d of %d bytes", when, op.N, len(got), len(w))
 					return
 				case rerr != io.EOF:
